@@ -31,7 +31,7 @@ PROBES = ["copy_of_copy", "nice_on_scale_with_living_relative",
           "reversed_domain", "reversed_range", "clamped_scale_checked", "degenerate_domain",
           "pool_size_5", "drop_then_use_relative", "domain_on_aliased", "range_on_aliased",
           "clamp_on_aliased", "magnitude_tiny", "magnitude_huge", "rejected_call_raised",
-          "readonly_op", "unobserved_step"]
+          "readonly_op", "unobserved_step", "range_list_edited_in_place_and_passed_again"]
 
 RULE = (
     "Each run draws (from one PRNG seeded by sha256(VERIF_SEED:scale:i)) a magnitude regime "
@@ -48,7 +48,7 @@ RULE = (
 )
 
 ASSUMPTIONS = [
-    "the caller (the simulator) passes fresh lists and never mutates a list it passed to or received from a scale",
+    "the caller (the simulator) never mutates a list it received from a scale, and mutates a list it passed only in the atomic RANGE_REUSE step (edit in place, pass the same object again)",
     "floating-point tolerance for I5: 64*eps*(|r0|+|r1|)(1+|t|) forward, conditioned by |d1-d0|/|r1-r0| for invert; end points (I1) and isolation (I2) are exact comparisons",
     "a rejected call (nice(0), domain(['x',1]), domain([None,1])) may raise or be accepted; either way every scale, the target included, must still map the end points of the domain it reports (shape-invalid arguments such as domain([1]) are not generated)",
     "magnitudes and histories are sampled; a clean batch is evidence, not proof",
@@ -135,8 +135,11 @@ def gen_plan(rng, tier):
                 d = [d[0], d[0]]  # degenerate: switches I1/I5 off for that scale only
             ops.append(["domain", i, d] + rng.choice([[], [], [], ["tuple"], ["int"]]))
         elif r < copy_p + nice_p + 0.40:
-            ops.append(["range", i, _pair(rng, lo, hi, rng.choice([style, "int"]))]
-                       + rng.choice([[], [], [], ["tuple"], ["int"]]))
+            if rng.random() < 0.2:
+                ops.append(["range_reuse", i, _pair(rng, lo, hi, rng.choice([style, "int"]))])
+            else:
+                ops.append(["range", i, _pair(rng, lo, hi, rng.choice([style, "int"]))]
+                           + rng.choice([[], [], [], ["tuple"], ["int"]]))
         elif r < copy_p + nice_p + 0.40 + clamp_p:
             ops.append(["clamp", i, rng.random() < 0.7])
         elif r < copy_p + nice_p + 0.40 + clamp_p + fault_p:
@@ -239,7 +242,7 @@ def snapshot(s, fr):
     d, r, c = _reported(s)
     try:
         xs, ys = _probe_points(d, r, fr)
-        vals = [_call(s, x) for x in xs] + [_call(s.scale, xs[2])]
+        vals = [_call(s, x) for x in xs] + [_call(s.scale, xs[2]), _call(s.scale, xs[3]), _call(s.scale, xs[4])]
         inv = [_call(s.invert, y) for y in ys]
     except (TypeError, ValueError, IndexError) as e:
         # the scale reports something that is not a pair of numbers (only
@@ -284,10 +287,11 @@ def check_scale(s, fr, stats):
     lo_r, hi_r = min(r0, r1), max(r0, r1)
     prev = None
     pts = []
-    for x in xs:
+    for idx, x in enumerate(xs):
         if not math.isfinite(x):
             continue
-        y = s(x)
+        # both public entry points are judged: s(x) and s.scale(x)
+        y = s(x) if idx % 2 == 0 else s.scale(x)
         ym, t = _model(d, r, x)
         tf = float(t)
         tol = 64 * EPS * rsum * (1 + abs(tf)) + 1e-300
@@ -360,6 +364,7 @@ def _run(plan):
     next_family = 1
     generation = [0]
     exempt = {}      # id(scale) -> setters still needed after a rejected call
+    passed_range = {}  # id(scale) -> the list object the caller last passed to range()
     last_snap = {}   # id(scale) -> snapshot taken at the last observation
     touched = set()  # ids of scales that were the target of a state-changing op since then
     checked = 0
@@ -402,9 +407,22 @@ def _run(plan):
                     arg = tuple(arg)
                 elif len(op) > 3 and op[3] == "int":
                     arg = [int(v) if float(v).is_integer() else v for v in arg]
+                passed_range[id(target)] = arg if isinstance(arg, list) else None
                 target.range(arg)
                 if id(target) in exempt:
                     exempt[id(target)].discard("range")
+            elif kind == "range_reuse":
+                # the caller edits the list it passed to range() earlier, in place,
+                # and passes the same object again (one atomic step: nothing looks
+                # at the scale between the edit and the call)
+                lst = passed_range.get(id(target))
+                if lst is None:
+                    lst = list(op[2])
+                else:
+                    lst[:] = list(op[2])
+                    bump("probe:range_list_edited_in_place_and_passed_again")
+                passed_range[id(target)] = lst
+                target.range(lst)
             elif kind == "clamp":
                 target.clamp(op[2])
             elif kind == "nice":
@@ -467,7 +485,7 @@ def _run(plan):
             touched.add(id(target))
         if new_scale is not None:
             touched.add(id(new_scale))
-        if aliased and kind in ("domain", "range", "clamp", "nice", "bad_nice", "bad_domain"):
+        if aliased and kind in ("domain", "range", "range_reuse", "clamp", "nice", "bad_nice", "bad_domain"):
             bump("fault:alias:fired")
             bump("fault:alias:configured")
             if kind in ("domain", "range", "clamp"):
@@ -475,7 +493,7 @@ def _run(plan):
         if len(pool) >= 5:
             bump("probe:pool_size_5")
         v = None
-        if outcome.startswith("raise") and kind in ("domain", "range", "clamp", "nice", "copy", "new"):
+        if outcome.startswith("raise") and kind in ("domain", "range", "range_reuse", "clamp", "nice", "copy", "new"):
             # a documented call on documented arguments must not raise ... unless
             # the scale is degenerate (division by zero is outside the property)
             d = list(target.domain()) if target is not None else [0, 1]
@@ -487,7 +505,7 @@ def _run(plan):
             if v is None and outcome == "ok":
                 if kind == "domain" and list(target.domain()) != [float(x) for x in op[2]]:
                     v = ("I4_echo_domain", {"set": canon(op[2]), "reported": canon(list(target.domain()))})
-                elif kind == "range" and list(target.range()) != list(op[2]):
+                elif kind in ("range", "range_reuse") and list(target.range()) != list(op[2]):
                     v = ("I4_echo_range", {"set": canon(op[2]), "reported": canon(list(target.range()))})
                 elif kind == "clamp" and bool(target.clamp()) != bool(op[2]):
                     v = ("I4_echo_clamp", {"set": op[2], "reported": bool(target.clamp())})
@@ -577,7 +595,7 @@ def simulated_time(counters):
 
 def simplifiers(plan, prop):
     for i, op in enumerate(plan["ops"]):
-        if op[0] in ("domain", "range"):
+        if op[0] in ("domain", "range", "range_reuse"):
             for simple in ([0.0, 1.0], [1.0, 0.0], [0.0, 10.0], [0.13, 0.97]):
                 if op[2] != simple:
                     p = copy.deepcopy(plan)
